@@ -242,6 +242,10 @@ class Unit:
         self.slice_assumptions = []
         self.sites = {}
         self.implicit_tags = {}
+        self.stubs = []
+        self.canary_names = []
+        self.e7 = False
+        self.strict_specs = set()
 
     # ---- raw output -------------------------------------------------------
     def raw(self, text, tag=None):
@@ -249,6 +253,9 @@ class Unit:
 
     def orig(self, src, s, e):
         self.pieces.append(Piece(src.text(s, e), src=src, start=s, fn=self._fnctx))
+
+    def canary_decls(self):
+        self.pieces.append(Piece("", tag="__canary_decls__"))
 
     # ---- env / specs ------------------------------------------------------
     def env(self, rel):
@@ -266,7 +273,7 @@ class Unit:
                 tag = {"env": f"env/{rel}:{ln}", "label": None, "tags": []}
             self.raw(line + "\n", tag=tag)
 
-    def spec(self, rel):
+    def spec(self, rel, shared=False):
         path = os.path.join(VERIF, "specs", rel)
         self.envfiles.append(path)
         verb, fns = parse_spec(path)
@@ -284,12 +291,14 @@ class Unit:
             if k in self.specs:
                 raise Undecided(f"duplicate spec for {k}")
             self.specs[k] = v
+            if not shared:
+                self.strict_specs.add(k)
 
     # ---- items ------------------------------------------------------------
     def _strip_attrs_edits(self, src, s, e):
         eds = []
         for a in src.attrs_in(s, e):
-            if a["name"] in self.E1_DROP:
+            if a["name"].split("::")[-1] in self.E1_DROP:
                 a0, a1 = a["span"]
                 # swallow trailing whitespace/newline
                 while a1 < e and src.data[a1:a1 + 1] in (b" ", b"\t"):
@@ -336,12 +345,20 @@ class Unit:
 
     # ---- functions ----------------------------------------------------------
     def _clauses(self, cls):
-        return [c for c in cls if c.applies(self.prop)]
+        """Clause projection: nothing is dropped (a requires clause is also an assumption of the
+        body, an ensures clause an assumption of the callers).  Verus names only the FIRST failing
+        requires clause of a call, so the clauses tagged with the property being checked are put
+        first: a failing clause of another property can then never mask one of this property."""
+        if self.prop is None:
+            return list(cls)
+        def pri(c):
+            return 0 if self.prop in c.tags else (1 if not c.tags else 2)
+        return sorted(cls, key=pri)
 
     def _register(self, name, kind, tags, fn, where=None):
         self.obligations.append({"name": name, "kind": kind, "tags": tags, "fn": fn, "where": where})
 
-    def fn(self, src, it, key, container_prefix=""):
+    def fn(self, src, it, key, stub=False):
         """Emit one real function with catalogued edits. `key` is the spec key
         (<mod>::<qual>)."""
         spec = self.specs.get(key)
@@ -351,17 +368,19 @@ class Unit:
         self._fnctx = key
         s0 = it["start"]
         s_end = it["span"][1]
+        if stub:
+            return self._stub(src, it, key, spec)
         sig = it["sig"]
         eds = []
         # E1: attributes in front of the fn are simply not copied (we start at `start`);
         # attributes inside the body:
         for a in src.attrs_in(it["start"], it["span"][1]):
-            if a["name"] in self.E1_DROP:
+            if a["name"].split("::")[-1] in self.E1_DROP:
                 eds.append((a["span"][0], a["span"][1], "", None))
             else:
                 raise Undecided(f"attribute #[{a['name']}] inside {key} outside E1 catalogue")
         for a in it["attrs"]:
-            if a["name"] not in self.E1_DROP:
+            if a["name"].split("::")[-1] not in self.E1_DROP:
                 raise Undecided(f"attribute #[{a['name']}] on {key} outside E1 catalogue")
             self._log("E1", src, a["span"][0], src.text(*a["span"]), "")
         nodes = it["nodes"]
@@ -400,10 +419,10 @@ class Unit:
         callsite_ord = {}
         for n in nodes:
             cname = None
-            if n["k"] == "mcall" and n["name"] in self.ghost_callees:
-                cname = n["name"]
-            elif n["k"] == "call" and (n["path"] in self.ghost_callees):
-                cname = n["path"]
+            if n["k"] == "mcall" and ("m:" + n["name"]) in self.ghost_callees:
+                cname = "m:" + n["name"]
+            elif n["k"] == "call" and ("c:" + n["path"]) in self.ghost_callees:
+                cname = "c:" + n["path"]
             if cname is not None:
                 garg = self.ghost_callees[cname]
                 pos = n["close"]
@@ -426,7 +445,11 @@ class Unit:
             for c in req:
                 txt.append((f"        {c.text},\n", self._ctag(key, c)))
         if self.canary and it["body"]:
-            ens = ens + [Clause("ensures", "__canary", [], "false", "canary")]
+            # per-function uninterpreted flag: provable only if the fn's precondition/environment
+            # is contradictory; callers merely learn that the flag is false (no poisoning)
+            cn = f"__canary_{len(self.canary_names)}"
+            self.canary_names.append(cn)
+            ens = ens + [Clause("ensures", "__canary", [], f"!crate::{cn}()", "canary")]
         if ens:
             txt.append(("\n    ensures\n", None))
             for c in ens:
@@ -511,7 +534,13 @@ class Unit:
             if not c.applies(self.prop) and False:
                 continue
             pos = self._proof_pos(src, it, anchor, key)
-            eds.append((pos, pos, f"\n proof {{ {c.text} }}\n", self._ctag(key, c, "proof")))
+            pre = ""
+            if isinstance(pos, tuple):
+                pre, pos = ";", pos[1]
+            eds.append((pos, pos, f"{pre}\n proof {{ {c.text} }}\n", self._ctag(key, c, "proof")))
+        # E7: ghost unlock marker where a mutex guard goes out of scope
+        if self.e7:
+            eds += self._e7(src, it, key)
         # implicit obligations
         self._implicit(src, it, key, spec)
         for a in spec.attrs:
@@ -527,6 +556,42 @@ class Unit:
             "has_body": bool(it["body"]),
         })
 
+    def _stub(self, src, it, key, spec):
+        """Contract-only copy of a real fn: signature verbatim + the SAME clauses from specs/,
+        body replaced by an external_body stub.  The fn is proved in another unit (or by Kani)."""
+        sig = it["sig"]
+        eds = []
+        end = it["body"][0] if it["body"] else it["semi"]
+        if self.drop_async and sig["async"]:
+            a0, a1 = sig["async"]
+            while src.data[a1:a1 + 1] == b" ":
+                a1 += 1
+            eds.append((a0, a1, "", None))
+        if spec.ghostparam:
+            pos = sig["paren_close"]
+            sep = "" if (sig["ninputs"] == 0 or sig["inputs_trailing"]) else ", "
+            eds.append((pos, pos, sep + spec.ghostparam, None))
+        if spec.returns and sig["output"]:
+            o0, o1 = sig["output"]
+            eds.append((o0, o0, f"({spec.returns}: ", None))
+            eds.append((o1, o1, ")", None))
+        self.raw("#[verifier::external_body]\n")
+        self._apply(src, it["start"], end, eds)
+        req = self._clauses(spec.requires)
+        ens = self._clauses(spec.ensures)
+        if req:
+            self.raw("\n    requires\n")
+            for c in req:
+                self.raw(f"        {c.text},\n", tag=self._ctag(key, c))
+        if ens:
+            self.raw("\n    ensures\n")
+            for c in ens:
+                self.raw(f"        {c.text},\n", tag=self._ctag(key, c))
+        self.raw("{ unimplemented!() }\n")
+        self._fnctx = None
+        s, e = it["span"]
+        self.stubs.append({"fn": key, "file": f"src/{src.rel}", "sha256": hashlib.sha256(src.data[s:e]).hexdigest()})
+
     def _ctag(self, key, c, sub=None):
         return {"clause": c.label, "kind": c.kind, "tags": c.tags, "fn": key, "sub": sub, "where": c.where}
 
@@ -538,6 +603,12 @@ class Unit:
         if how == "body_begin":
             return it["body"][0] + 1
         if how == "body_end":
+            b0 = [n for n in nodes if n["k"] == "block"][0]
+            st = [n for n in nodes if n["k"] == "stmt" and n["block"] == b0["id"]]
+            if st and st[-1]["kind"] == "expr":
+                if it["sig"]["output"]:
+                    raise Undecided(f"proof body_end on {key}: body ends in a value expression")
+                return ("semi", st[-1]["span"][1])
             return it["body"][1] - 1
         if how in ("loop_begin", "loop_end"):
             ls = [n for n in nodes if n["k"] == "loop" and n["ord"] == int(arg)]
@@ -551,6 +622,29 @@ class Unit:
                 raise Undecided(f"lost anchor: stmt /{arg}/ of {key} resolves to {len(hits)} places")
             return hits[0]["span"][0] if how == "before_stmt" else hits[0]["span"][1]
         raise Undecided(f"bad proof anchor {anchor}")
+
+    LOCK_RX = re.compile(r"\.lock\(\)\s*(\.await)?\s*;\s*$")
+
+    def _e7(self, src, it, key):
+        eds = []
+        nodes = it["nodes"]
+        for n in nodes:
+            if n["k"] != "stmt" or n["kind"] != "let" or not self.LOCK_RX.search(src.text(*n["span"])):
+                continue
+            blk = [b for b in nodes if b["k"] == "block" and b["id"] == n["block"]][0]
+            st = [x for x in nodes if x["k"] == "stmt" and x["block"] == blk["id"]]
+            last = st[-1]
+            if last["kind"] == "expr":
+                # tail expression evaluated with the guard alive: it must not contain an await
+                for x in nodes:
+                    if x["k"] == "await" and last["span"][0] <= x["span"][0] < last["span"][1]:
+                        raise Undecided(f"E7: guard of {key} is alive across an await in a tail expression")
+                pos = last["span"][0]
+            else:
+                pos = blk["close"]
+            eds.append((pos, pos, " proof { ghost_unlock(w); } ", None))
+            self._log("E7", src, pos, "", "ghost_unlock(w)")
+        return eds
 
     PANIC_MCALLS = {"unwrap", "expect"}
     PANIC_MACROS = {"todo", "unimplemented", "panic", "unreachable", "assert", "assert_eq"}
@@ -647,13 +741,8 @@ class Unit:
     def trait(self, src, name, modname, fns=None, header=None):
         tr = src.find(name, "trait")
         s, e = tr["span"]
-        # find start after attributes
-        start = min([s] + [])
-        # skip outer attributes: they lie in [s, ...) before `pub trait`
-        txt = src.text(s, tr["open"] + 1)
-        m = re.search(r"(pub\s+)?trait\b", txt)
         if header is None:
-            self._apply(src, s + m.start(), tr["open"] + 1, [])
+            self._apply(src, tr["start"], tr["open"] + 1, [])
         else:
             self.raw(header + " {")
         self.raw("\n")
@@ -674,11 +763,17 @@ class Unit:
     # ---- finalize ---------------------------------------------------------------
     def finalize(self):
         for k, sp_ in self.specs.items():
-            if not sp_.used:
+            if not sp_.used and k in self.strict_specs:
                 raise Undecided(f"lost anchor: spec for {k} was not attached to any extracted function")
         out = []
         offs = []
         pos = 0
+        if self.canary:
+            decl = "".join(f"pub uninterp spec fn {c}() -> bool;\n" for c in self.canary_names)
+            hit = [p for p in self.pieces if p.tag == "__canary_decls__"]
+            if not hit:
+                raise Undecided("unit has no canary_decls() placeholder")
+            hit[0].text = decl
         for p in self.pieces:
             b = p.text.encode("utf-8")
             offs.append(pos)
@@ -697,6 +792,6 @@ class Unit:
             d["line"] = p.src.line_of(o)
             d["byte"] = o
             d["src"] = p.src
-        if p.tag is not None:
+        if p.tag is not None and isinstance(p.tag, dict):
             d["tag"] = p.tag
         return d
